@@ -377,6 +377,7 @@ def cfg():
 def run(ctx):
     st = State()
     pt = install(ctx, st)
+    ctx.enable_disturb(pt, 0.03)     # other legitimate library calls interleaved between cases (vf.gen.disturb)
     g = cfg()
     for _ in range(ctx.n(4000, 100000)):
         p = gp.gen_pep(ctx.rng, g)
